@@ -43,6 +43,13 @@ ob("O-C10-splice", ["C10", "C05"], J, "c10_bytes_splice_enum", "bytes_splice(b, 
 ob("O-C10-read-arr", ["C10", "C02"], J, "c10_read_array_index", "the real Val::index_opt on a 3-element array: `.[i]` for every i in -5..=5 yields the element at (i >= 0 ? i : 3 + i) when that is inside and nothing otherwise - the accessor applies the position arithmetic of O-C10-abs-index to the array's own length", [LIB + "Val::index_opt"], label="bounded", bound="one 3-element array x indices -5..=5, enumerated concretely", composes_dependency=True)
 ob("O-C10-read-bytes", ["C10", "C13"], J, "c10_read_bytes_index", "the real Val::index_opt on a byte string (3 bytes, two of them a multi-byte UTF-8 sequence): `.[i]` for i in -5..=5 yields the byte (not the character) at the model position as a number, nothing outside", [LIB + "Val::index_opt"], label="bounded", bound="one 3-byte string x indices -5..=5, enumerated concretely", composes_dependency=True)
 
+for k, what in (("exp", "literals with an exponent and no dot (1e1000, 1E2, -2e-3) are decimals whose text is kept character for character"),
+                ("frac", "literals with a fraction (1.10, -0.0, 1.5e3) are decimals whose text is kept character for character, trailing zero included"),
+                ("reject", "a sign alone, a literal ending in `.` or `e`, or a sign followed by a non-digit is a reported error - no unwrap on a failed integer parse"),
+                ("inf", "+Infinity / -Infinity read as the infinite floats"),
+                ("int", "an integer literal is handed to Num::from_str_radix whole (sign included, nothing after it), in base 10, and that function's answer is returned (the integer parser itself is core / num-bigint, replaced by a ghost stub)")):
+    ob(f"O-C07-parse-num-{k}", ["C07", "C05"] if k == "reject" else ["C07"], J, f"c07_parse_num_{k}", "parse_num (the JSON / XJON / CSV number reader) on literals run through hifijson's real slice lexer: " + what, ["jaq-json/src/read.rs::parse_num"], label="point", kind="point", composes_dependency=True, **({"stubs": ["from_str_radix"]} if k == "int" else {}))
+
 # ------------------------------------------------------------------------------------ C08
 ob("O-C08-float", ["C08"], J, "c08_float_cmp_order", "float_cmp is a total preorder on non-NaN floats (reflexive, antisymmetric, transitive over all triples), float_eq <=> Equal, and it agrees with IEEE <, ==, > (so -inf < finite < +inf, -0 == +0)", [NUM + "float_cmp", NUM + "float_eq"])
 for k, kinds in (("ii", "Int,Int"), ("if", "Int,Float"), ("fi", "Float,Int"), ("ff", "Float,Float")):
